@@ -139,11 +139,24 @@ def run(ctx):
     thorough = ctx.tier == 'thorough'
     ctx.level = 'other'
     ctx.explanation = (
-        'BOUNDED stand-in (not a proof): for every arg-max path up to the stated length (3 and 4 classes, blank last), in three score '
+        'Hybrid. PROVED for all score tensors (N lines x C classes x T frames, any N, C, T >= 1; pyvc, contracts/greedy.py): the batched engine-side '
+        'decoder greedy_decode_ctc — after the index arithmetic with the prepended frame and the shifted class ids, entry (n, t) of the symbol matrix '
+        'is the first arg-max class AM(n, t) of frame t of line n iff that class is not blank and (t = 0 or it differs from AM(n, t-1)), and -1 '
+        'otherwise; the returned text of line n is the join of the characters of the non-negative entries of row n in frame order — i.e. the '
+        'CTC collapse of the arg-max path, for every line of every batch (torch tensor operations are modelled by their numpy counterparts).  '
+        'BOUNDED: for every arg-max path up to the stated length (3 and 4 classes, blank last), in three score '
         'styles (peaky, near-uniform, exact ties resolved to the first maximiser) and for batches of 2-3 lines with different content, '
         'greedy_decode_ctc, PytorchEngineLineOCR.run_ocr (stub network returning the tensor) and GreedyDecoder(...).best_hyp() all equal '
         'the CTC collapse of the arg-max path mapped through the character table. The decoders read the scores only through arg-max, so '
-        'the enumeration covers all score values at these shapes under A3 (arg-max semantics of numpy/torch).')
+        'the enumeration covers all score values at these shapes under A3 (arg-max semantics of numpy/torch).  The stand-alone GreedyDecoder '
+        '(itertools.groupby) and the agreement of the two decoders are bounded only.')
+    from pyvc import run as vrun
+    from contracts import greedy as GC
+    core.setup_repo_path()
+    reps = vrun.verify(GC.KEYS, GC.CONTRACTS, root=core.repo_root(), both=thorough)
+    ctx.add_proof_reports(reps, clause='engine-side greedy decoder: surviving entries = collapse of the arg-max path')
+    ctx.trusted += ['torch.cat / torch.argmax (first maximal index) / slicing / masked assignment / comparison behave as the numpy counterparts modelled in pyvc.lib',
+                    'the final per-line step (np.nonzero filter of the non-negative entries, join of the characters) is covered by the models of np.nonzero and of the comprehension, not by a separate obligation']
     cs = bounded.order(cases(thorough), ctx.seed)
     res = bounded.pmap(_chunk, bounded.shard(cs, 48))
     seen = set()
